@@ -202,13 +202,15 @@ type qFrame struct {
 	base     map[types.Object]ival   // offset of a view into the slice it views
 	leq      map[string]bool         // relational facts "A<=B" (expression texts) established by the enclosing conditions
 	dep      map[types.Object]string // trackDeps: the cells a uint64 local was computed from (sorted, comma separated)
+	fn       map[types.Object]*types.Func // function-valued locals that hold one known function on this path
 	ret      []qitv
 	retDep   []string
 	returned bool
+	jumped   bool // left the loop body through `continue`: the frame is dead until the body ends
 }
 
 func newQFrame() *qFrame {
-	return &qFrame{u: map[types.Object]qitv{}, n: map[types.Object]ival{}, bl: map[types.Object]int{}, sym: map[types.Object]string{}, base: map[types.Object]ival{}, leq: map[string]bool{}, dep: map[types.Object]string{}}
+	return &qFrame{u: map[types.Object]qitv{}, n: map[types.Object]ival{}, bl: map[types.Object]int{}, sym: map[types.Object]string{}, base: map[types.Object]ival{}, leq: map[string]bool{}, dep: map[types.Object]string{}, fn: map[types.Object]*types.Func{}}
 }
 
 func (f *qFrame) clone() *qFrame {
@@ -234,9 +236,23 @@ func (f *qFrame) clone() *qFrame {
 	for k, v := range f.dep {
 		g.dep[k] = v
 	}
+	for k, v := range f.fn {
+		g.fn[k] = v
+	}
 	g.ret = append(g.ret, f.ret...)
 	g.retDep = append(g.retDep, f.retDep...)
 	g.returned = f.returned
+	g.jumped = f.jumped
+	return g
+}
+
+// loopBody runs the body of a loop once; a path that left it through `continue` rejoins at its end.
+func (q *qInterp) loopBody(f *qFrame, list []ast.Stmt) *qFrame {
+	g := q.block(f, list)
+	if g.jumped {
+		g.jumped = false
+		g.returned = false
+	}
 	return g
 }
 
@@ -361,6 +377,11 @@ func joinFrames(a, b *qFrame) *qFrame {
 		r.dep[k] = depUnion(r.dep[k], v)
 	}
 	r.retDep = joinRetDeps(a.retDep, b.retDep)
+	for k, v := range a.fn {
+		if b.fn[k] == v {
+			r.fn[k] = v
+		}
+	}
 	for k, v := range a.u {
 		if w, ok := b.u[k]; ok {
 			r.u[k] = v.join(w)
@@ -415,6 +436,7 @@ func joinFrames(a, b *qFrame) *qFrame {
 	}
 	r.ret = joinRets(a.ret, b.ret)
 	r.returned = a.returned && b.returned
+	r.jumped = r.returned && (a.jumped || b.jumped)
 	return r
 }
 
@@ -559,18 +581,8 @@ func (q *qInterp) evalInt(f *qFrame, x ast.Expr) ival {
 		}
 	case *ast.CallExpr:
 		if isBuiltinCall(q.info, v, "len") && len(v.Args) == 1 && q.slen != nil {
-			if s, b := q.symOf(f, v.Args[0]); s != "" && b.known {
-				if n, ok := q.slen[s]; ok {
-					if se, ok := unparen(v.Args[0]).(*ast.SliceExpr); ok && se.High != nil {
-						if hi := q.evalIntAny(f, se.High); hi.known {
-							if lo := q.evalIntAny(f, se.Low); se.Low == nil || lo.known {
-								return ival{true, hi.v - lo.v}
-							}
-						}
-						return ival{}
-					}
-					return ival{true, n - b.v}
-				}
+			if n := q.sliceLen(f, v.Args[0]); n.known {
+				return n
 			}
 		}
 		if tv, ok := q.info.Types[v.Fun]; ok && tv.IsType() && len(v.Args) == 1 {
@@ -757,6 +769,11 @@ func (q *qInterp) cellKey(f *qFrame, ix *ast.IndexExpr) (string, string) {
 		return sym, sym
 	}
 	if q.snapshot != nil {
+		// inside a layer a cell is named by its view and the index: the value of the index when it is concrete (a lane
+		// of a window, written out or as the counter of a small loop), its text otherwise
+		if i := q.evalIntAny(f, ix.Index); i.known {
+			return sym, fmt.Sprintf("%s@%s[%d]", sym, id.Name, i.v)
+		}
 		return sym, sym + "@" + id.Name + "[" + exprString(ix.Index) + "]"
 	}
 	// outside a layer: a concretely known coefficient
@@ -951,6 +968,16 @@ func (q *qInterp) eval(f *qFrame, x ast.Expr) qitv {
 func (q *qInterp) call(f *qFrame, call *ast.CallExpr) []qitv {
 	fn := calleeFunc(q.info, call)
 	if fn == nil {
+		// a local that holds a function selected earlier (`transform := a; if small { transform = b }; transform(…)`)
+		if id, ok := unparen(call.Fun).(*ast.Ident); ok {
+			if g := f.fn[q.info.Uses[id]]; g != nil {
+				fn = g
+			} else if _, isVar := q.info.Uses[id].(*types.Var); isVar && q.exact {
+				q.problem(call.Pos(), "index", "call through the function value %s, which the analysis could not resolve", id.Name)
+			}
+		}
+	}
+	if fn == nil {
 		for _, a := range call.Args {
 			if isUint64(q.info.TypeOf(a)) {
 				q.eval(f, a)
@@ -1094,6 +1121,27 @@ func (q *qInterp) call(f *qFrame, call *ast.CallExpr) []qitv {
 		q.lastRetDep = append([]string(nil), g.retDep...)
 	}
 	return g.ret
+}
+
+// sliceLen is the length of a tracked slice expression, when the analysis knows it (exact mode).
+func (q *qInterp) sliceLen(f *qFrame, x ast.Expr) ival {
+	if q.slen == nil {
+		return ival{}
+	}
+	if s, b := q.symOf(f, x); s != "" && b.known {
+		if n, ok := q.slen[s]; ok {
+			if se, ok := unparen(x).(*ast.SliceExpr); ok && se.High != nil {
+				if hi := q.evalIntAny(f, se.High); hi.known {
+					if lo := q.evalIntAny(f, se.Low); se.Low == nil || lo.known {
+						return ival{true, hi.v - lo.v}
+					}
+				}
+				return ival{}
+			}
+			return ival{true, n - b.v}
+		}
+	}
+	return ival{}
 }
 
 // symOf resolves a slice-valued expression to its abstract symbol and the offset of its first element.
@@ -1254,6 +1302,12 @@ func (q *qInterp) stmt(f *qFrame, st ast.Stmt) *qFrame {
 			q.call(f, call)
 		}
 		return f
+	case *ast.BranchStmt:
+		if s.Tok == token.CONTINUE && s.Label == nil {
+			f.returned = true
+			f.jumped = true
+		}
+		return f
 	case *ast.IncDecStmt:
 		if id, ok := unparen(s.X).(*ast.Ident); ok {
 			o := q.info.Uses[id]
@@ -1330,14 +1384,75 @@ func (q *qInterp) stmt(f *qFrame, st ast.Stmt) *qFrame {
 	case *ast.ForStmt:
 		return q.forStmt(f, s)
 	case *ast.RangeStmt:
+		// exact mode: a range over a slice of known length (or over an integer) is executed index by index; a range over
+		// a window (an array of at most 32 elements) always is
+		smallArray := false
+		if t := q.info.TypeOf(s.X); t != nil {
+			at := t.Underlying()
+			if pt, ok := at.(*types.Pointer); ok {
+				at = pt.Elem().Underlying()
+			}
+			if arr, ok := at.(*types.Array); ok && arr.Len() <= 32 {
+				smallArray = true
+			}
+		}
+		if q.exact || smallArray {
+			n := ival{}
+			isSlice := false
+			if t := q.info.TypeOf(s.X); t != nil {
+				at := t.Underlying()
+				if pt, ok := at.(*types.Pointer); ok {
+					at = pt.Elem().Underlying()
+				}
+				if _, ok := t.Underlying().(*types.Slice); ok {
+					isSlice = true
+					n = q.sliceLen(f, s.X)
+				} else if arr, ok := at.(*types.Array); ok {
+					// a window `x := (*[8]uint64)(unsafe.Pointer(&p[j]))`, or an array
+					isSlice = true
+					n = ival{true, arr.Len()}
+				} else if isIntLike(t) {
+					n = q.evalIntAny(f, s.X)
+				}
+			}
+			if n.known && n.v >= 0 {
+				for i := int64(0); i < n.v; i++ {
+					if f.returned || q.steps > qStepLimit {
+						break
+					}
+					if s.Key != nil {
+						q.assign(f, s.Key, qTop, ival{true, i}, true, 0, s.Pos())
+					}
+					if s.Value != nil && isSlice {
+						ix := &ast.IndexExpr{X: s.X, Index: &ast.BasicLit{Kind: token.INT, Value: fmt.Sprint(i)}}
+						v := qTop
+						dep := ""
+						if sym, b := q.symOf(f, s.X); sym != "" && b.known {
+							key := fmt.Sprintf("%s#%d", sym, b.v+i)
+							v = q.readCell(sym, key)
+							dep = key
+						}
+						_ = ix
+						q.assign(f, s.Value, v, ival{}, false, 0, s.Pos())
+						q.noteStore(f, s.Value, dep, s.Pos())
+					}
+					f = q.loopBody(f, s.Body.List)
+				}
+				return f
+			}
+		}
 		// executed abstractly once
 		if s.Key != nil {
 			q.assign(f, s.Key, qTop, ival{}, true, 0, s.Pos())
 		}
 		if s.Value != nil {
-			q.assign(f, s.Value, qTop, ival{}, false, 0, s.Pos())
+			v := qTop
+			if sym, _ := q.symOf(f, s.X); sym != "" {
+				v = q.readCell(sym, sym)
+			}
+			q.assign(f, s.Value, v, ival{}, false, 0, s.Pos())
 		}
-		return q.parallel(f, false, func(g *qFrame) *qFrame { return q.block(g, s.Body.List) })
+		return q.parallel(f, false, func(g *qFrame) *qFrame { return q.loopBody(g, s.Body.List) })
 	case *ast.SwitchStmt:
 		// tagged over an integer or tagless over conditions: the clauses are tried in order, a clause whose test is
 		// decided selects or is skipped, an undecided one is entered on a copy of the state and joined
@@ -1419,6 +1534,28 @@ func (q *qInterp) stmt(f *qFrame, st ast.Stmt) *qFrame {
 func (q *qInterp) refine(f *qFrame, cond ast.Expr, truth bool) {
 	be, ok := unparen(cond).(*ast.BinaryExpr)
 	if !ok {
+		if ue, ok := unparen(cond).(*ast.UnaryExpr); ok && ue.Op == token.NOT {
+			q.refine(f, ue.X, !truth)
+		}
+		return
+	}
+	// A && B holds: both hold; A || B fails: both fail. The other two cases refine by the operand that decides alone
+	// (`flag && x >= y` fails with flag known true: x < y).
+	if be.Op == token.LAND || be.Op == token.LOR {
+		if (be.Op == token.LAND) == truth {
+			q.refine(f, be.X, truth)
+			q.refine(f, be.Y, truth)
+			return
+		}
+		neutral := 1 // the value of an operand that leaves the decision to the other one
+		if be.Op == token.LOR {
+			neutral = 2
+		}
+		if q.evalBool(f, be.X) == neutral {
+			q.refine(f, be.Y, truth)
+		} else if q.evalBool(f, be.Y) == neutral {
+			q.refine(f, be.X, truth)
+		}
 		return
 	}
 	if isUint64(q.info.TypeOf(be.X)) && isUint64(q.info.TypeOf(be.Y)) {
@@ -1627,6 +1764,34 @@ func (q *qInterp) assignStmt(f *qFrame, s *ast.AssignStmt) *qFrame {
 			}
 			vals[i].n = n
 		default:
+			if t != nil {
+				if _, isFn := t.Underlying().(*types.Signature); isFn {
+					if lid, ok := unparen(s.Lhs[i]).(*ast.Ident); ok {
+						lo := q.info.Defs[lid]
+						if lo == nil {
+							lo = q.info.Uses[lid]
+						}
+						var target *types.Func
+						switch rv := unparen(r).(type) {
+						case *ast.Ident:
+							target, _ = q.info.Uses[rv].(*types.Func)
+							if target == nil {
+								target = f.fn[q.info.Uses[rv]]
+							}
+						case *ast.SelectorExpr:
+							target, _ = q.info.Uses[rv.Sel].(*types.Func)
+						}
+						if lo != nil {
+							if target != nil {
+								f.fn[lo] = target
+							} else {
+								delete(f.fn, lo)
+							}
+						}
+					}
+					continue
+				}
+			}
 			if sym, vb := q.symOf(f, r); sym != "" {
 				vals[i].sym, vals[i].vb = sym, vb
 			} else if b, ok := t.(*types.Basic); ok && b.Info()&types.IsBoolean != 0 {
@@ -1673,6 +1838,48 @@ func geometricLoop(s *ast.ForStmt) bool {
 	return false
 }
 
+// smallConstLoop: `for k := c0; k < C; k++` (or k += c) with constant bounds and at most 32 iterations — the lanes of a
+// window written as a loop. Such a loop is executed iteration by iteration like the written-out lanes would be.
+func smallConstLoop(info *types.Info, s *ast.ForStmt) bool {
+	init, ok := s.Init.(*ast.AssignStmt)
+	if !ok || init.Tok != token.DEFINE || len(init.Lhs) != 1 || len(init.Rhs) != 1 {
+		return false
+	}
+	k, ok := init.Lhs[0].(*ast.Ident)
+	if !ok {
+		return false
+	}
+	if tv, ok := info.Types[init.Rhs[0]]; !ok || tv.Value == nil {
+		return false
+	}
+	cond, ok := unparen(s.Cond).(*ast.BinaryExpr)
+	if !ok || (cond.Op != token.LSS && cond.Op != token.LEQ) {
+		return false
+	}
+	if id, ok := unparen(cond.X).(*ast.Ident); !ok || info.Uses[id] != info.Defs[k] {
+		return false
+	}
+	tv, ok := info.Types[cond.Y]
+	if !ok || tv.Value == nil {
+		return false
+	}
+	if n, ok := constant.Int64Val(constant.ToInt(tv.Value)); !ok || n > 32 {
+		return false
+	}
+	switch p := s.Post.(type) {
+	case *ast.IncDecStmt:
+		id, ok := unparen(p.X).(*ast.Ident)
+		return ok && p.Tok == token.INC && info.Uses[id] == info.Defs[k]
+	case *ast.AssignStmt:
+		if len(p.Lhs) == 1 && len(p.Rhs) == 1 && p.Tok == token.ADD_ASSIGN {
+			id, ok := unparen(p.Lhs[0]).(*ast.Ident)
+			ptv, okv := info.Types[p.Rhs[0]]
+			return ok && info.Uses[id] == info.Defs[k] && okv && ptv.Value != nil
+		}
+	}
+	return false
+}
+
 func (q *qInterp) forStmt(f *qFrame, s *ast.ForStmt) *qFrame {
 	if s.Init != nil {
 		f = q.stmt(f, s.Init)
@@ -1690,7 +1897,7 @@ func (q *qInterp) forStmt(f *qFrame, s *ast.ForStmt) *qFrame {
 				q.problem(s.Pos(), "loop", "the condition of this loop could not be evaluated concretely (exact mode)")
 				return f
 			}
-			f = q.block(f, s.Body.List)
+			f = q.loopBody(f, s.Body.List)
 			if f.returned {
 				return f
 			}
@@ -1699,7 +1906,7 @@ func (q *qInterp) forStmt(f *qFrame, s *ast.ForStmt) *qFrame {
 			}
 		}
 	}
-	if geometricLoop(s) {
+	if geometricLoop(s) || smallConstLoop(q.info, s) {
 		for iter := 0; iter < 80; iter++ {
 			c := 0
 			if s.Cond != nil {
@@ -1712,7 +1919,7 @@ func (q *qInterp) forStmt(f *qFrame, s *ast.ForStmt) *qFrame {
 				// trip count unknown: run the body to a fixpoint of the cells (bounded), joining the states
 				return q.fixpointLoop(f, s)
 			}
-			f = q.block(f, s.Body.List)
+			f = q.loopBody(f, s.Body.List)
 			if f.returned {
 				return f
 			}
@@ -1733,7 +1940,7 @@ func (q *qInterp) forStmt(f *qFrame, s *ast.ForStmt) *qFrame {
 	entry := f.clone()
 	q.havocPost(f, s.Post)
 	q.havocAssignedInts(f, s.Body)
-	g := q.parallel(f, false, func(g *qFrame) *qFrame { return q.block(g, s.Body.List) })
+	g := q.parallel(f, false, func(g *qFrame) *qFrame { return q.loopBody(g, s.Body.List) })
 	q.havocPost(g, s.Post)
 	if c != 1 {
 		g = joinFrames(g, entry)
@@ -1841,7 +2048,7 @@ func (q *qInterp) fixpointLoop(f *qFrame, s *ast.ForStmt) *qFrame {
 		for k, v := range q.cells {
 			before[k] = v
 		}
-		g := q.block(f.clone(), s.Body.List)
+		g := q.loopBody(f.clone(), s.Body.List)
 		if s.Post != nil {
 			g = q.stmt(g, s.Post)
 		}
